@@ -3,7 +3,7 @@
 # Confirms in a scratch worktree: patch applies, builds, 142 tests pass with it,
 # the demo fails with it and passes without it.
 dir="$1"; n="$2"
-wt=/tmp/seedverify
+wt=/tmp/seedverify; export XT_DIR=$wt
 export CARGO_TARGET_DIR=/tmp/seedverify-target
 git -C /repo worktree remove --force $wt >/dev/null 2>&1
 git -C /repo worktree add -q --detach $wt HEAD || exit 2
